@@ -79,19 +79,199 @@ def _certificate(q):
 for _q in (1, 2, 3):
     UNITS.append(Unit(id=f"lemma.miso_residual_certificate[q={_q}]", module=M, func="MISO_numeric_optimal_spectral_analysis", props=["C15"], kind="lemma", setup=_certificate(_q), opts={"callee": False}))
 
-for _f in ("MISO_analytic_optimal_spectral_analysis", "MISO_numeric_optimal_spectral_analysis"):
-    UNITS.append(Unit(id=f"systems.{_f}", module=M, func=_f, props=["C15"], opts={"callee": False, "bounded_only": "sympy.solve/lambdify resp. per-bin numpy.linalg.solve inside try/except: outside the interpreted subset"}, runtime=None))
+for _f in ("MISO_analytic_optimal_spectral_analysis",):
+    UNITS.append(Unit(id=f"systems.{_f}", module=M, func=_f, props=["C15"], opts={"callee": False, "bounded_only": "sympy.solve / lambdify: outside the interpreted subset"}, runtime=None))
+
+
+# ---- MISO numeric, q = 1, 2, 3 inputs: the residual is S00 - S^H T^-1 S wherever T is solvable ----------------------
+# Assumed contracts (DESIGN 3.2): compute_spectrum of a channel / a pair returns, on one common grid, the auto densities
+# G(a,a) >= 0 and the cross density G(a,b) = conj(G(b,a)) (established for the real code by C05-C09); numpy.linalg.solve
+# returns h with T h = S or raises LinAlgError; numpy.linalg.cond / pinv are uninterpreted.  Proved: the matrices are
+# filled with the right densities (T[i,j] = G(in_i,in_j), S[i] = G(in_i,out)), every solvable well-conditioned bin holds
+# the solution of T H = S, and the returned amplitude satisfies asd^4 = |S00 - sum_i conj(S_i) H_i|^2 there.
+
+
+def _miso_setup(q):
+    def setup(eng, st, fid, genv):
+        from pyvc import values as V
+        from pyvc.heap import DictV, ListV
+
+        N = eng.fresh("N", "int")
+        st.assume(V.cmp(">=", N, 1))
+        ins = [eng.alloc(st, eng.fresh_array(f"in{i}", (N,), "real")) for i in range(q)]
+        out = eng.alloc(st, eng.fresh_array("out", (N,), "real"))
+        fs = eng.fresh("fs", "real")
+        st.assume(V.cmp(">", fs, 0))
+        eng.setvar(st, fid, "inputs", eng.alloc(st, ListV(items=list(ins))))
+        eng.setvar(st, fid, "output", out)
+        eng.setvar(st, fid, "fs", fs)
+        eng.setvar(st, fid, "kwargs", eng.alloc(st, DictV({})))
+        nf = eng.fresh("nf", "int")
+        st.assume(V.cmp(">=", nf, 1))
+        st.tags["miso"] = {"nf": nf, "chan": {st.heap[r.loc].uid: i for i, r in enumerate(ins)}, "G": {}, "f": eng.fresh_array("grid", (nf,), "real")}
+        st.tags["miso"]["chan"][st.heap[out.loc].uid] = "o"
+        genv.update(nf=nf, Q=q)
+
+    return setup
+
+
+def _miso_post(eng, st, fid, res, entry):
+    fr = st.frames[fid]["vars"]
+    for nm in ("Hvec", "Tmat", "Svec", "S00", "Sum1", "Sum2", "Sum3"):
+        eng.set_ghost(nm.upper(), eng.deref(st, fr[nm]), st)
+    eng.set_ghost("GRIDF", st.tags["miso"]["f"], st)
+
+
+for _q in (1, 2):  # q = 3: the 3x3 complex row equations exceed what the nonlinear back end closes reliably: bounded only
+    _rows = " and ".join("(" + " + ".join(f"TMAT[{i}, {m}, k] * HVEC[{m}, k]" for m in range(_q)) + f") == SVEC[{i}, k]" for i in range(_q))
+    _lin = " + ".join(f"conj(SVEC[{i}, k]) * HVEC[{i}, k]" for i in range(_q))
+    UNITS.append(
+        Unit(
+            id=f"systems.MISO_numeric_optimal_spectral_analysis[q={_q}]",
+            module=M,
+            func="MISO_numeric_optimal_spectral_analysis",
+            props=["C15"],
+            setup=_miso_setup(_q),
+            loops={
+                # 5: for k in range(nf): every solvable, well-conditioned bin already visited holds T_k H_k = S_k
+                "5": dict(label="bins", inv={"solved": "forall(0, k, lambda j: implies(SOLVED(j), " + " and ".join("(" + " + ".join(f"Tmat[{i}, {m}, j] * Hvec[{m}, j]" for m in range(_q)) + f") == Svec[{i}, j]" for i in range(_q)) + "))"}),
+            },
+            ensures={
+                "C15.matrices_hold_the_densities": "forall(0, nf, lambda k: " + " and ".join(f"TMAT[{i}, {j}, k] == GDENS({i}, {j}, k)" for i in range(_q) for j in range(_q)) + " and " + " and ".join(f"SVEC[{i}, k] == GDENS({i}, 'o', k)" for i in range(_q)) + " and S00[k] == re(GDENS('o', 'o', k)))",
+                "C15.solvable_bins_hold_the_solution": f"forall(0, nf, lambda k: implies(SOLVED(k), {_rows}))",
+                # cut lemmas: the certificate identity on the code's own sums, and |sqrt(z)|^4 = |z|^2
+                "lemma.certificate": f"forall(0, nf, lambda k: implies(SOLVED(k), S00[k] - SUM1[k] - SUM2[k] + SUM3[k] == S00[k] - ({_lin})))",
+                "lemma.modulus_of_the_root": "forall(0, nf, lambda k: (result[1][k]**2)**2 == abs2(S00[k] - SUM1[k] - SUM2[k] + SUM3[k]))",
+                "C15.residual_is_the_optimal_one": f"forall(0, nf, lambda k: implies(SOLVED(k), (result[1][k]**2)**2 == abs2(S00[k] - ({_lin}))))",
+                "C15.grid": "result[0] is GRIDF",
+            },
+            raises={},
+            post_hook=_miso_post,
+            opts={"callee": False, "lemma_from": {"lemma.certificate": ["C15.solvable_bins_hold_the_solution"]}},
+        )
+    )
 
 
 def install(eng):
     from pyvc.heap import Builtin, ArrV, ObjV, DictV
-    from pyvc.values import Sym, Opaque, Unsupported
+    from pyvc.values import Sym, Opaque, Unsupported, Cx
     from pyvc import values as V
     import z3
 
     # speckit.compute_spectrum by contract: a two-channel call returns a cross result on a grid
     # (f, nf) whose GyySx attribute is the contracted Gyy*(1-coh); the call is recorded (ghost LTF_CALL)
+    def gdens(eng_, st, a, b):
+        """density table of the MISO units: G(a,b)[k], Hermitian, real non-negative diagonal (assumed contract)"""
+        real = eng_.cur_state
+        tab = real.tags["miso"]
+        nf = tab["nf"]
+        key = (str(a), str(b))
+        if key not in tab["G"]:
+            if str(a) == str(b):
+                g = eng_.fresh_array(f"G_{a}{a}", (nf,), "real")
+                q_ = z3.Int("gq")
+                real.fact(z3.ForAll([q_], z3.Implies(z3.And(q_ >= 0, q_ < nf.t), g.uf(q_) >= 0)))
+                tab["G"][key] = ArrV((nf,), lambda ix, g=g: V.cx_of(g.fn(ix)), "cx")
+            elif (str(b), str(a)) in tab["G"]:
+                o = tab["G"][(str(b), str(a))]
+                tab["G"][key] = ArrV((nf,), lambda ix, o=o: V.conj(o.fn(ix)), "cx")
+            else:
+                tab["G"][key] = eng_.fresh_array(f"G_{a}{b}", (nf,), "cx")
+        return tab["G"][key]
+
+    def ltf_miso(eng_, st, data, fs):
+        from pyvc.heap import ListV
+
+        real = eng_.cur_state
+        tab = real.tags["miso"]
+        d = eng_.deref(st, data)
+        if isinstance(d, ListV) and d.concrete() and len(d.items) == 2:
+            a, b = [tab["chan"][eng_.deref(st, i).uid] for i in d.items]
+        elif isinstance(d, ArrV):
+            a = b = tab["chan"][d.uid]
+        else:
+            raise Unsupported("compute_spectrum by contract (MISO): a channel or a pair of channels")
+        gaa, gbb, gab = gdens(eng_, st, a, a), gdens(eng_, st, b, b), gdens(eng_, st, a, b)
+        nf = tab["nf"]
+        flds = {
+            "f": eng_.alloc(real, tab["f"]),
+            "nf": nf,
+            "Gxx": eng_.alloc(real, ArrV((nf,), lambda ix: gaa.fn(ix).re, "real")),
+            "Gyy": eng_.alloc(real, ArrV((nf,), lambda ix: gbb.fn(ix).re, "real")),
+            "Gxy": eng_.alloc(real, ArrV((nf,), lambda ix: gab.fn(ix), "cx")),
+        }
+        eng_.trusted_calls.add("speckit.compute_spectrum of a channel / a pair: common grid, auto densities G(a,a) >= 0, cross density G(a,b) = conj(G(b,a)) (assumed here; established for the real code by C05-C09)")
+        return eng_.alloc(real, ObjV("SpectrumResult#bycontract", flds))
+
+    # numpy.linalg on the per-bin (q, q) matrix T[:, :, k]: cond is an uninterpreted function of the bin, solve returns
+    # the solution or raises LinAlgError (singular bins), pinv is uninterpreted
+    COND = z3.Function("miso_cond", z3.IntSort(), z3.RealSort())
+    SING = z3.Function("miso_singular", z3.IntSort(), z3.BoolSort())
+
+    def bin_of(Tk):
+        vo = getattr(Tk, "_view_of", None)
+        if vo is None or len(vo[1]) != 3 or vo[1][2] is None:
+            raise Unsupported("numpy.linalg on something that is not T[:, :, k]")
+        return V.int_term(vo[1][2])
+
+    def la_cond(eng_, st, Tk):
+        Tk = eng_.deref(st, Tk)
+        c = Sym(COND(bin_of(Tk)), "real")
+        eng_.cur_state.fact(c.t >= 1)
+        eng_.trusted.add("numpy.linalg.cond(T_k): an uninterpreted function of the bin (>= 1)")
+        return c
+
+    def la_pinv(eng_, st, Tk):
+        Tk = eng_.deref(st, Tk)
+        eng_.trusted.add("numpy.linalg.pinv(T_k): uninterpreted (ill-conditioned / singular bins carry no claim)")
+        return eng_.alloc(eng_.cur_state, eng_.fresh_array("pinv", Tk.shape, "cx"))
+
+    def la_solve(eng_, st, Tk, Sk):
+        from pyvc.engine import _Forked, _Raised
+        from pyvc.heap import ExcV
+
+        Tk, Sk = eng_.deref(st, Tk), eng_.deref(st, Sk)
+        kt = bin_of(Tk)
+        real = eng_.cur_state
+        q_ = Tk.shape[0]
+        if not isinstance(q_, int):
+            raise Unsupported("numpy.linalg.solve: symbolic dimension")
+        bad = real.copy()
+        bad.assume(Sym(SING(kt), "bool"))
+        real.assume(Sym(z3.Not(SING(kt)), "bool"))
+        h = eng_.fresh_array("solve", (q_,), "cx")
+        for i in range(q_):
+            acc = Cx(0, 0)
+            for m in range(q_):
+                acc = V.add(acc, V.mul(V.cx_of(Tk.fn((i, m))), V.cx_of(h.fn((m,)))))
+            real.assume(V.cmp("==", acc, V.cx_of(Sk.fn((i,)))))
+        eng_.trusted.add("numpy.linalg.solve(T_k, S_k): returns h with T_k h = S_k, or raises LinAlgError (assumed)")
+        outs = [(real, eng_.alloc(real, h))]
+        if eng_.feasible(bad):
+            outs.append((bad, _Raised(ExcV("LinAlgError", (0,)))))
+        return _Forked(outs)
+
+    la = eng.builtins["__modules__"]["numpy"].attrs["linalg"]
+    la.attrs["cond"] = Builtin("numpy.linalg.cond", la_cond, True)
+    la.attrs["pinv"] = Builtin("numpy.linalg.pinv", la_pinv, True)
+    la.attrs["solve"] = Builtin("numpy.linalg.solve", la_solve, True)
+    la.attrs["LinAlgError"] = Opaque("class:LinAlgError")
+
+    def spec_solved(eng_, st, k):
+        kt = V.int_term(eng_.deref(st, k))
+        return Sym(z3.And(z3.Not(SING(kt)), COND(kt) <= z3.RealVal(10**12)), "bool")
+
+    eng.builtins["SOLVED"] = Builtin("SOLVED", spec_solved, True)
+
+    def spec_gdens(eng_, st, a, b, k):
+        g = gdens(eng_, st, a, b)
+        return g.fn((eng_.deref(st, k),))
+
+    eng.builtins["GDENS"] = Builtin("GDENS", spec_gdens, True)
+
     def ltf(eng_, st, data, fs, **kwargs):
+        if "miso" in eng_.cur_state.tags:
+            return ltf_miso(eng_, st, data, fs)
         d = eng_.deref(st, data)
         from pyvc.heap import ListV
 
@@ -187,8 +367,8 @@ BOUNDED = {"C15.miso": bounded_miso}
 PROPERTY_INFO = {
     "C15": {
         "bounded": ["C15.miso"],
-        "not_decided": ["0 <= res <= S00 and invariance under re-mixing rest on the Schur-complement lemma for positive semidefinite Gram matrices (mathematics M2): bounded only", "MISO analytic/numeric function bodies: bounded only (see bounded_only_units)"],
+        "not_decided": ["0 <= res <= S00 and invariance under re-mixing rest on the Schur-complement lemma for positive semidefinite Gram matrices (mathematics M2): bounded only", "MISO analytic (sympy) function body: bounded only (see bounded_only_units); MISO numeric: proved for q = 1, 2 relative to the assumed contracts of compute_spectrum and numpy.linalg, q >= 3 bounded"],
         "level": "other",
-        "explanation": "SISO path and the residual-formula certificate are proved; the two MISO functions are checked at run time only (bounded), so the property as a whole is not claimed as proof",
+        "explanation": "SISO path, the residual-formula certificate (q = 1..3) and the numeric MISO function for q = 1, 2 inputs are proved (relative to the assumed contracts of compute_spectrum / numpy.linalg); the analytic (sympy) MISO function and q >= 3 are checked at run time only (bounded), so the property as a whole is not claimed as proof",
     }
 }
